@@ -135,6 +135,8 @@ type verifBytes struct{ verifBytesID int }
 
 func verif_bytesOf(s []byte) verifBytes { panic("verif: spec only") }
 func verif_bytesOfStr(s string) verifBytes { panic("verif: spec only") }
+func verif_built[T any](b T) verifBytes { panic("verif: spec only") }
+func verif_bsingle(c byte) verifBytes { panic("verif: spec only") }
 func verif_bcat(a, b verifBytes) verifBytes { panic("verif: spec only") }
 func verif_bxor(a, b verifBytes) verifBytes { panic("verif: spec only") }
 func verif_btake(a verifBytes, n int) verifBytes { panic("verif: spec only") }
